@@ -14,6 +14,7 @@ open(f,'w').write(s)
 PY
 [ $? -ne 0 ] && exit 1
 git diff | grep '^[-+]' | grep -v '^+++\|^---' | head -8
+if [ -n "${SAVE:-}" ]; then git diff > /verif/mutants/$SAVE.diff; echo "$@" > /verif/mutants/$SAVE.expect; fi
 cd /verif
 for id in "$@"; do bin/check "$id" 2>&1 | grep -v "^    witness" | cut -c1-330 | head -${LINES_MAX:-6}; echo "   -> exit ${PIPESTATUS[0]}"; done
 git -C /repo checkout -- .
